@@ -43,7 +43,7 @@ Ins2(op, a, b) == [op |-> op, a |-> a, b |-> b]
 
 \* ---- layout family ----------------------------------------------------------------------
 \* registers: 1 A(X)  2 B(Y)  3 float  4 B re-indexed onto A's Arc  5 S(X u Y)  6 A zero-padded onto S's Arc
-\*            7 S2(X u the names in neither X nor Y)  8 A zero-padded onto S2's Arc  9 A with one entry perturbed
+\*            7 S2(X u the names in neither X nor Y)  8 A zero-padded onto S2's Arc  9 A with one entry perturbed  10 a zero-derivative number listing Y
 \* (6 and 8 are the same number by name but carry different extra names with zero derivative)
 \* A written out on the list S (zero for the names A does not carry) with its LAST highest-order entry moved by 1/32:
 \* equal to A in value and in everything of lower order, different in exactly one derivative
@@ -54,16 +54,24 @@ Perturbed(kind, X, S) ==
   IN IF kind = "D1" THEN [t |-> "D1", re |-> FOfRat(7, 4), vars |-> S, d |-> [i \in 1..n |-> IF i = n THEN FAdd(d[i], FOfRat(1, 32)) ELSE d[i]]]
      ELSE [t |-> "D2", re |-> FOfRat(7, 4), vars |-> S, d |-> d,
            d2half |-> [i \in 1..n |-> [j \in 1..n |-> IF i = n /\ j = n THEN FAdd(h[i][j], FOfRat(1, 32)) ELSE h[i][j]]]]
+\* a number that LISTS the names of Y but has every derivative zero (what `new_from(&other, c, vec![])` style
+\* constants look like): arithmetic with it must still return the union of the names
+ZeroOn(kind, Y) ==
+  LET n == Len(Y) z == [i \in 1..n |-> FZ] IN
+  IF kind = "D1" THEN [t |-> "D1", re |-> FOfRat(11, 8), vars |-> Y, d |-> z]
+  ELSE [t |-> "D2", re |-> FOfRat(11, 8), vars |-> Y, d |-> z, d2half |-> [i \in 1..n |-> z]]
 LayoutProg(kind, X, Y) ==
   LET leaves == << Leaf(kind, 1, FOfRat(7, 4), X), Leaf(kind, 2, FOfRat(5, 4), Y), LeafF(FOfRat(5, 2)),
                    LeafFrom(kind, 2, FOfRat(5, 4), Y, 1), Leaf(kind, 3, FOfRat(9, 8), UnionList(X, Y)),
                    LeafFrom(kind, 1, FOfRat(7, 4), X, 5),
                    Leaf(kind, 4, FOfRat(13, 8), UnionList(X, SetToSeq(Names \ (SetOf(X) \cup SetOf(Y))))),
                    LeafFrom(kind, 1, FOfRat(7, 4), X, 7),
-                   Perturbed(kind, X, UnionList(X, Y)) >>
+                   Perturbed(kind, X, UnionList(X, Y)),
+                   ZeroOn(kind, Y) >>
       pairs == {<<1, 2>>, <<2, 1>>, <<1, 4>>, <<4, 1>>, <<6, 2>>, <<2, 6>>, <<1, 3>>, <<3, 1>>}
       arith == {Bin(op, p[1], p[2], f) : op \in BinOps, p \in pairs, f \in Forms}
                \cup {Bin(op, p[1], p[2], <<"r", "r">>) : op \in BinOps, p \in {<<6, 8>>, <<8, 6>>, <<8, 2>>, <<2, 8>>}}
+               \cup {Bin(op, p[1], p[2], f) : op \in BinOps, p \in {<<1, 10>>, <<10, 1>>}, f \in {<<"r", "r">>, <<"v", "v">>}}
       dd == {<<1, 2>>, <<2, 1>>, <<1, 4>>, <<4, 1>>, <<6, 2>>, <<2, 6>>, <<1, 6>>, <<6, 1>>, <<1, 1>>, <<6, 8>>, <<8, 6>>, <<8, 2>>}
       rel == {Ins2(op, p[1], p[2]) : op \in {"eq", "ne", "vars_cmp", "ptr_eq", "to_new_vars", "union_l", "union_r"}, p \in dd}
              \cup {Ins2(op, p[1], p[2]) : op \in {"eq", "ne"}, p \in {<<1, 3>>, <<3, 1>>}}
